@@ -120,6 +120,7 @@ impl ClientPlan {
                 reversal_abort_receipt: None,
                 close_after_each_exchange: false,
                 handshake_pace_ms: 0,
+                long_status_text: 0,
             },
             init: ConfigureOutcome::plain(),
             ops,
